@@ -79,7 +79,8 @@ def run_native(mod, cell, witness):
     env.set_symbolic(False)
     h = H(env, cell['params'], witness=witness)
     fn = getattr(mod, cell['fn'])
-    res = {'outcome': None, 'failures': [], 'n_obligations': 0, 'observations': [], 'error': None, 'vacuous': False}
+    res = {'outcome': None, 'failures': [], 'n_obligations': 0, 'observations': [], 'error': None, 'vacuous': False,
+           'confirm_only': set()}
     try:
         fn(h)
     except NativeVacuous as e:
@@ -95,6 +96,8 @@ def run_native(mod, cell, witness):
     for ob in h.obligations:
         if not ob.cond.len:
             res['failures'].append((ob.label, ob.region, ob.detail or ob.cond.text))
+            if not ob.companion:
+                res['confirm_only'].add((ob.label, ob.region))
     res['observations'] = [(k, (float(v) if isinstance(v, (int, float)) else v)) for k, v in h.observations]
     res['notes'] = h.notes
     return res
@@ -276,7 +279,7 @@ def run_cell(mod_name: str, cell: dict) -> dict:
                                        'found_by': 'native-companion', 'native': nat['error'],
                                        'traceback': nat.get('traceback', '')[-1500:]})
                     for (label, region, text) in nat['failures']:
-                        if label in failed_labels:
+                        if label in failed_labels or (label, region) in nat['confirm_only']:
                             continue
                         add_violation({'label': label, 'region': region, 'detail': text,
                                        'witness': _witness_json(witness), 'found_by': 'native-companion',
